@@ -111,6 +111,18 @@ static void complex_case(const Pattern &p) {
 static void complex_block_case(int n) { hx::run_case("complex_block_inner_product/n"+std::to_string(n), [&]() { typedef amgcl::static_matrix<CX,2,1> CV; be::numa_vector<CV> X(n,false), Y(n,false); scalar rr=0, ri=0;
     for (int i=0;i<n;++i) { CV x, y; for (int q=0;q<2;++q) { scalar xr=var("xr"+std::to_string(2*i+q),0.5+i+q), xi=var("xi"+std::to_string(2*i+q),-0.25*(i+1)+q), yr=var("yr"+std::to_string(2*i+q),1.5-i+0.5*q), yi=var("yi"+std::to_string(2*i+q),0.75+0.25*i-q); x(q)=CX(xr,xi); y(q)=CX(yr,yi); rr+=xr*yr+xi*yi; ri+=xi*yr-xr*yi; } X[i]=x; Y[i]=y; }
     CX ip=be::inner_product(X,Y); hx::prove_eq("inner product of complex block vectors = sum x_k conj(y_k)  (real part)", ip.real(), rr); hx::prove_eq("inner product of complex block vectors = sum x_k conj(y_k)  (imaginary part: conjugate-linear in the SECOND argument)", ip.imag(), ri); }); }
+// copy: a vector copied through a backend's copy_vector (and a copy-constructed / assigned backend vector) is an INDEPENDENT vector with the same content:
+// writing to the copy leaves the source alone, and both can be destroyed
+static void copy_case(int n) { hx::run_case("copy_vector/n"+std::to_string(n), [&]() { typedef be::block_crs<scalar> BC; std::vector<scalar> x0=hx::sym_vector("x",n); NV x=hx::to_numa(x0);
+    auto y=BC::copy_vector(x,BC::params()); bool alias = (void*)y->data()==(void*)x.data(); bool same=y->size()==x.size(); for (int i=0;i<n&&same;++i) same=hx::same_handle((*y)[i],x0[i]);
+    hx::require("block_crs::copy_vector: the copy has the content of the source", same); hx::require("block_crs::copy_vector: the copy owns its own storage", !alias);
+    if (alias) { new std::shared_ptr<NV>(y); /* deliberately leaked: destroying both would free the shared buffer twice */ return; }
+    be::clear(*y); bool intact=true; for (int i=0;i<n;++i) intact=intact&&hx::same_handle(x[i],x0[i]); hx::require("clearing the copy leaves the source unchanged", intact);
+    { NV a=hx::to_numa(x0); NV *b=new NV(a); bool al = (void*)b->data()==(void*)a.data(); hx::require("numa_vector copy construction: independent storage", !al); if (!al) { for (int i=0;i<n;++i) (*b)[i]=scalar(0); bool ok=true; for (int i=0;i<n;++i) ok=ok&&hx::same_handle(a[i],x0[i]); hx::require("writing to a copy-constructed vector leaves the source unchanged", ok); delete b; }
+      NV *c=new NV(n?n-1:1,false); *c=a; bool al2 = (void*)c->data()==(void*)a.data(); hx::require("numa_vector copy assignment: independent storage of the source's size", !al2 && c->size()==a.size()); if (!al2) delete c; } }); }
+// empty operands: a 0 x 0 block matrix applied to empty scalar std::vectors (the mixed scalar / block call path) is a no-op, not an out-of-range access
+static void empty_mixed_case() { hx::run_case("empty/mixed_scalar_block", [&]() { typedef amgcl::static_matrix<scalar,2,2> B2; be::crs<B2,ptrdiff_t,ptrdiff_t> A; A.set_size(0,0,true); A.set_nonzeros(0); std::vector<scalar> x, y, f, r; be::spmv(scalar(1),A,x,scalar(0),y); be::residual(f,A,x,r); hx::require("empty mixed scalar/block spmv and residual return normally", y.empty() && r.empty()); }); }
+
 // block_crs backend (sizes not divisible by the block size) and the hybrid backend
 static void blockcrs_case(const Pattern &p, int bs) {
     hx::run_case("block_crs/b"+std::to_string(bs)+"/"+p.name, [&]() {
@@ -152,6 +164,7 @@ int main(int argc, char **argv) {
     if (!T) for (int k=0;k<24;++k) scalar_case(hx::mask_pattern(3,3,rng.next()%512,false));
     for (int k=0;k<(T?40:8);++k) { int n=2+rng.below(5), m=2+rng.below(5); scalar_case(hx::random_pattern(n,m,rng,1+rng.below(3),false)); }
     for (int n=0;n<=(T?6:4);++n) vector_case(n);
+    for (int n=0;n<=3;++n) copy_case(n); empty_mixed_case();
     for (int n=1;n<=(T?4:2);++n) complex_block_case(n);
     for (auto sh : std::vector<std::pair<int,int>>{{1,1},{2,2},{2,3},{3,2}}) { int bits=sh.first*sh.second; for (uint64_t mask=0; mask<(1ull<<bits); ++mask) if (T || bits<=4 || rng.below(4)==0) block_case(hx::mask_pattern(sh.first,sh.second,mask,false)); }
     for (auto sh : std::vector<std::pair<int,int>>{{1,1},{2,2},{2,3},{3,3}}) { int bits=sh.first*sh.second; for (uint64_t mask=0; mask<(1ull<<bits); ++mask) if (T || bits<=4 || rng.below(bits>6?24:4)==0) complex_case(hx::mask_pattern(sh.first,sh.second,mask,false)); }
